@@ -88,7 +88,18 @@ def bloom_wire_roundtrip(cls: Const(CBloomFilter), buf: Bytes, *, flt: Obj(CBloo
     requires(buf == flt.serialize())
     ensures(bytes(result.vData) == bytes(flt.vData) and result.nHashFuncs == flt.nHashFuncs
             and result.nTweak == flt.nTweak and result.nFlags == flt.nFlags
-            and result.contains(probe) == flt.contains(probe) and result.serialize() == buf)
+            and result.contains(probe) == flt.contains(probe) and result.serialize() == buf
+            and inserted_like_original(result, flt, probe))
+
+
+def inserted_like_original(a, b, elem):
+    """a parsed filter stays usable: inserting an element changes it exactly as it changes the original"""
+    try:
+        a.insert(elem)
+        b.insert(elem)
+        return bytes(a.vData) == bytes(b.vData) and a.contains(elem) and b.contains(elem)
+    except Exception:
+        return False
 
 
 # ---- generators --------------------------------------------------------------------------
